@@ -42,10 +42,10 @@ def run(ctx):
     from rnapolis.parser_v2 import can_write_pdb, fit_to_pdb, parse_cif_atoms, parse_pdb_atoms, write_pdb
     rng = ctx.rng
     ctx.coverage["rule"] = ("generated mmCIF- and PDB-derived tables: within limits, multi-character chain ids, numbers above 9999, serials above 99999, insertion codes, "
-                            "more than 62 chains, one offending atom among fitting ones, an offending atom with another identifying item missing, a fitting table obtained by dropping the offending rows of a parsed one. Non-trivial = the table does not already fit; distinct by table text.")
+                            "more than 62 chains, one offending atom among fitting ones, an offending atom with another identifying item missing, a fitting table obtained by dropping the offending rows of a parsed one, a two-model table whose second model alone breaks a limit. Non-trivial = the table does not already fit; distinct by table text.")
     corr_expr, corr_exp, corr_case = [], [], []
     known = 0
-    kinds = ["fits", "longchain", "bignumber", "bigserial", "icode+longchain", "63chains", "pdb", "one-longchain", "one-bignumber", "one-bigserial", "offender-with-missing", "row-filtered"]
+    kinds = ["fits", "longchain", "bignumber", "bigserial", "icode+longchain", "63chains", "pdb", "one-longchain", "one-bignumber", "one-bigserial", "offender-with-missing", "row-filtered", "later-model-offender"]
     n = 40 if ctx.quick else 300
     for t in range(n):
         kind = kinds[t % len(kinds)]
@@ -86,6 +86,19 @@ def run(ctx):
                     r2["chainID"] = f"C{c}"
                     r2["serial"] = len(table) + 1
                     table.append(r2)
+        if kind == "later-model-offender":
+            # an ensemble whose second model alone breaks one limit (serials keep counting across models; a chain or a number
+            # may differ between models): every row counts, not those of the first model
+            second = [dict(r, model=2, serial=len(table) + k_ + 1) for k_, r in enumerate(table)]
+            which = (t // len(kinds)) % 3
+            for r in second:
+                if which == 0:
+                    r["serial"] += 100000
+                elif which == 1:
+                    r["chainID"] = r["chainID"] + "B"
+                else:
+                    r["resSeq"] = 10000 + abs(r["resSeq"])
+            table = table + second
         if kind == "row-filtered":
             # a residue that breaks all three limits is parsed with the rest and its rows are dropped afterwards (boolean indexing):
             # what remains fits, whatever the dropped rows have left behind in the table's column metadata
